@@ -12,7 +12,7 @@ column.
 -/
 set_option linter.unusedSectionVars false
 
-namespace Ptn.Ham
+namespace Ptn.Ham.Gauge
 open Ptn.Og Finset
 
 variable {α : Type} [CommRing α] [HasConj α] [DecidableEq α]
@@ -275,4 +275,4 @@ theorem forSteps_good (step : Int → Mat α → Except Err (Mat α)) (tags : In
       · exact Or.inr ⟨k', List.mem_cons_of_mem _ hk', h1⟩
 
 end steps
-end Ptn.Ham
+end Ptn.Ham.Gauge
